@@ -324,6 +324,49 @@ def stage(ck, full=False):
     return fc
 
 
+def native_objects_and_boundaries(ck):
+    """(a) every EAS object simulates with the detector altitude of its own configuration, whatever was built before it in the process;
+    (b) the 0..20 km range cut at its exact floating-point boundaries, with the kernel replaced by a recording stand-in"""
+    from nuspacesim.config import NssConfig
+    from nuspacesim.simulation.eas_optical.eas import EAS
+
+    fails, n = [], 0
+    made = []
+    for alt in (525.0, 33.0, 1000.0, 33.0):
+        cfg = NssConfig()
+        cfg.detector.initial_position.altitude = alt
+        made.append((alt, EAS(cfg)))
+    for i, (alt, e) in enumerate(made):
+        n += 1
+        k = e.CphotAng
+        shared = [j for j, (_a, o) in enumerate(made) if j != i and o.CphotAng is k]
+        if float(k.detector_altitude) != alt or shared:
+            fails.append({"obligation": "bounded.objects", "clause": "an EAS object rescales to the detector altitude of its own configuration (objects built earlier in the process do not matter)",
+                          "input": {"altitudes constructed in this order": [a for a, _o in made], "object": i}, "observed": {"kernel altitude": float(k.detector_altitude), "configured": alt, "kernel shared with objects": shared}})
+    cfg = NssConfig()
+    eas = EAS(cfg)
+    alts = np.array([np.nextafter(0.0, -1.0), -8e-16, -1e-300, 0.0, 5e-324, 10.0, 20.0, np.nextafter(20.0, 21.0), 20.000000001, -1e-9])
+    m = len(alts)
+    rng = np.random.default_rng(ck.seed)
+    v = {"beta": rng.uniform(0.02, 0.7, m), "alt": alts, "E": 10 ** rng.uniform(-2, 2, m), "lat": rng.uniform(-1, 1, m), "lon": rng.uniform(-3, 3, m)}
+    v["dph"], v["th"] = kernel_fn(v["beta"], v["alt"], v["E"], v["lat"], v["lon"])
+    stub = KernelStub(v)
+    eas.CphotAng = stub
+    with np.errstate(all="ignore"):
+        pe, cth = eas(v["beta"].copy(), alts.copy(), v["E"].copy(), v["lat"].copy(), v["lon"].copy())
+    inr = (alts >= 0.0) & (alts <= 20.0)
+    n += m
+    opt = cfg.detector.optical
+    want_pe = np.where(inr, v["dph"] * opt.telescope_effective_area * opt.quantum_efficiency, 0.0)
+    sim = np.asarray(stub.calls[0][1]) if stub.calls else np.array([])
+    ok = np.array_equal(np.asarray(pe)[~inr], np.zeros(int((~inr).sum()))) and np.allclose(np.asarray(cth)[~inr], np.cos(np.radians(1.5)), rtol=0, atol=0) \
+        and np.allclose(np.asarray(pe)[inr], want_pe[inr], rtol=1e-12) and np.array_equal(sim, alts[inr])
+    if not ok:
+        fails.append({"obligation": "bounded.range_boundaries", "clause": "exactly the decays with 0 <= altitude <= 20 km (as doubles) are simulated; every other event gets exactly 0 PE and the default 1.5 deg angle",
+                      "input": {"altDec": [repr(float(x)) for x in alts]}, "observed": {"simulated altitudes": [repr(float(x)) for x in sim], "numPEs": [float(x) for x in np.asarray(pe)], "expected in range": inr.tolist()}})
+    return {"evaluations": n, "failures": fails}
+
+
 def run(ck):
     ck.assume("CphotAng.__call__ returns one (density, angle) pair per event it is given, in order (C10); here an abstract per-event function",
               "intrinsic Cherenkov angle >= 0 and photon density >= 0 (sign contracts of the kernel, C06)",
@@ -336,6 +379,8 @@ def run(ck):
     stage(ck, full=True)
 
     run_dependency(ck)
+    ck.bounded_run("EAS objects built in sequence; range cut at its floating-point boundaries", lambda: native_objects_and_boundaries(ck),
+                   design="4 EAS objects (525, 33, 1000, 33 km) built in one process; 10 decay altitudes around 0 and 20 km (neighbouring doubles, denormals, -8e-16) with a recording stand-in kernel")
 
     qn = "detector_geometry:distance_to_detector"
     sc = Scenario(qn, build_dist, events={"beta": (0.0, 0.7330382858376184), "z": (0.0, 20.0)}, scalars={"zdet": (20.0, 40000.0), "R": (6000.0, 6500.0)}, positive=("R", "zdet"), nonnegative=("z",))
